@@ -516,6 +516,8 @@ func run(c *vh.Ctx) error {
 		switch {
 		case i%40 == 7:
 			tc, stream = ghostCase(c.R), "deleted-then-touched"
+		case i%25 == 9:
+			tc, stream = logCase(c.R), "first-log-in-failing-frame"
 		case i%20 == 3:
 			tc, stream = restoreCase(c.R), "write-back-to-pre-block-value"
 		case i%deepEvery == 11:
